@@ -11,11 +11,21 @@ WORDS = ["ash", "bell", "cove", "dune", "elm", "fog", "gate", "hill", "ivy", "je
 
 ALL_FEATURES = {"print", "glue", "tags", "icond", "iseq", "set", "temp", "block_if", "block_seq", "choices", "nested",
                 "labels", "fallback", "conds", "sticky", "counts", "turns", "loops", "tunnels", "threads", "choice_print",
-                "done", "functions", "choice_tags", "stitches", "bool_vars", "str_vars"}
+                "done", "functions", "choice_tags", "stitches", "typed_vars", "if_diverts"}
 
 
 # a logic line (~) that calls a function ends the line of whatever the function printed
 NL = {"k": "nl"}
+
+
+def has_call(e):
+    """does the expression contain something written as a call (TURNS_SINCE(..), CHOICE_COUNT(), TURNS())?  A logic
+    line with a call in it ends in a newline, whatever the call is"""
+    if not isinstance(e, dict):
+        return False
+    if e.get("k") in ("ts", "cc", "turns"):
+        return True
+    return any(has_call(v) for v in e.values() if isinstance(v, dict))
 
 
 def chars(s):
@@ -71,11 +81,37 @@ class Gen:
     def int_vars(self):
         return [g["n"] for g in self.globals if g["v"]["t"] == "int"] + list(self.temps)
 
+    def str_expr(self):
+        """a string valued expression: literal, variable or a concatenation"""
+        r = self.r
+        svars = [g["n"] for g in self.globals if g["v"]["t"] == "str"]
+        def atom():
+            if svars and self.p(0.6):
+                v = r.choice(svars)
+                return {"k": "var", "n": v}, v
+            w = r.choice(WORDS)
+            return {"k": "lit", "v": {"t": "str", "v": chars(w)}}, '"%s"' % w
+        a, ta = atom()
+        if self.p(0.35):
+            b, tb = atom()
+            return {"k": "b", "op": "+", "a": a, "b": b}, "(%s + %s)" % (ta, tb)
+        return a, ta
+
     def expr(self, depth=0, boolean=False):
         """returns (ast, text); int valued unless boolean"""
         r = self.r
         if boolean:
             k = r.random()
+            bvars = [g["n"] for g in self.globals if g["v"]["t"] == "bool"]
+            svars = [g["n"] for g in self.globals if g["v"]["t"] == "str"]
+            if bvars and k < 0.15:
+                v = r.choice(bvars)
+                return {"k": "var", "n": v}, v
+            if svars and k < 0.25:
+                a, ta = self.str_expr()
+                b, tb = self.str_expr()
+                op = r.choice(["==", "!="])
+                return {"k": "b", "op": op, "a": a, "b": b}, "(%s %s %s)" % (ta, op, tb)
             if k < 0.65 or depth >= 2:
                 a, ta = self.expr(depth + 1)
                 b, tb = self.expr(depth + 1)
@@ -158,7 +194,12 @@ class Gen:
                 st, t = self.call_stmt("print")
                 segs.append(("stmt", st, "{%s}" % t))
             elif (k < 0.65 or rich == "print") and self.has("print"):
-                e, t = self.expr()
+                typed = [g["n"] for g in self.globals if g["v"]["t"] in ("str", "bool")]
+                if typed and self.p(0.3):
+                    v = r.choice(typed)
+                    e, t = {"k": "var", "n": v}, v
+                else:
+                    e, t = self.expr()
                 segs.append(("stmt", {"k": "p", "e": e}, "{%s}" % t))
             elif k < 0.8 and self.has("icond") and rich is True:
                 c, tc = self.expr(boolean=True)
@@ -212,6 +253,11 @@ class Gen:
 
     # ------------------------------------------------------------------ statements
     def line(self, ind):
+        if self.has("tags") and self.p(0.06):
+            # a line that is nothing but a tag: it belongs to the next line of text
+            t = self.words(1, 2)
+            # (a line of tags only is not ended by a newline)
+            return [{"k": "tag", "b": self.body([{"k": "s", "v": chars(t)}])}], [ind + "# " + t]
         stmts, text = self.lower(self.segments())
         return stmts + [{"k": "nl"}], [ind + text]
 
@@ -232,17 +278,22 @@ class Gen:
                 x = r.choice(ints)
                 st, t = self.call_stmt("set", x)
                 return [st, NL], ["%s~ %s = %s" % (ind, x, t)]
+        typed = [g for g in self.globals if g["v"]["t"] in ("str", "bool")]
+        if typed and self.p(0.25):
+            g = r.choice(typed)
+            e, t = self.str_expr() if g["v"]["t"] == "str" else self.expr(boolean=True)
+            return [{"k": "set", "x": g["n"], "e": e}] + [NL] * has_call(e), ["%s~ %s = %s" % (ind, g["n"], t)]
         if self.has("temp") and self.p(0.3):
             e, t = self.expr()
             name = self.fresh("t")
             st = {"k": "temp", "x": name, "e": e}
             self.temps.append(name)
-            return [st], ["%s~ temp %s = %s" % (ind, name, t)]
+            return [st] + [NL] * has_call(e), ["%s~ temp %s = %s" % (ind, name, t)]
         x = r.choice(ints + list(self.temps)) if ints else None
         if x is None:
             return [], []
         e, t = self.expr()
-        return [{"k": "set", "x": x, "e": e}], ["%s~ %s = %s" % (ind, x, t)]
+        return [{"k": "set", "x": x, "e": e}] + [NL] * has_call(e), ["%s~ %s = %s" % (ind, x, t)]
 
     def block_if(self, ind):
         n = self.r.randint(1, 3)
@@ -251,7 +302,12 @@ class Gen:
             last_else = i == n - 1 and n > 1 and self.p(0.6)
             saved = list(self.temps)
             stmts, ls = self.simple_block(ind + "    ", self.r.randint(1, 2))
+            if self.has("if_diverts") and self.kinds.get(self.cur, "knot") in ("knot", "thread") and self.p(0.2):
+                ds, dl = self.divert(ind + "    ")
+                stmts += ds
+                ls += dl
             self.temps = saved        # (a temp declared in a branch may not exist afterwards)
+            stmts = [{"k": "nl"}] + stmts       # (a branch of a block starts on a new line)
             if last_else:
                 br.append({"c": {"k": "else"}, "b": self.body(stmts)})
                 lines.append("%s- else:" % ind)
@@ -260,17 +316,19 @@ class Gen:
                 br.append({"c": c, "b": self.body(stmts)})
                 lines.append("%s- %s:" % (ind, tc))
             lines += ls
-        return [{"k": "if", "br": br}], ["%s{" % ind] + lines + ["%s}" % ind]
+        # (the line of the closing brace ends in a newline like any other line; it only shows when the block's last
+        # output was a tag)
+        return [{"k": "if", "br": br}, {"k": "nl"}], ["%s{" % ind] + lines + ["%s}" % ind]
 
     def block_seq(self, ind):
         mode, kw = self.r.choice([("stop", "stopping"), ("cycle", "cycle"), ("once", "once")])
         alts, lines = [], ["%s{ %s:" % (ind, kw)]
         for _ in range(self.r.randint(2, 3)):
             stmts, text = self.lower(self.segments(allow_glue=False, allow_tags=False, rich=False))
-            alts.append(self.body(stmts + [{"k": "nl"}]))
+            alts.append(self.body([{"k": "nl"}] + stmts + [{"k": "nl"}]))
             lines.append("%s    - %s" % (ind, text))
         lines.append("%s}" % ind)
-        return [{"k": "seq", "mode": mode, "id": self.fresh("q"), "alts": alts}], lines
+        return [{"k": "seq", "mode": mode, "id": self.fresh("q"), "alts": alts}, {"k": "nl"}], lines
 
     def simple_block(self, ind, n):
         """lines and logic only"""
@@ -392,6 +450,18 @@ class Gen:
                 else:
                     o, to = self.lower(self.segments(False, False, False, 1, 1))
                     start, only, inner, text = a, o, [], "%s[%s]" % (ta, to)
+                if self.has("choice_tags") and self.p(0.3):
+                    # a tag in the start text (choice and printed line), in the brackets (choice only) or after them
+                    # (printed line only)
+                    tg = self.words(1, 1)
+                    tag = [{"k": "s", "v": chars(" ")}, {"k": "tag", "b": self.body([{"k": "s", "v": chars(tg)}])}]
+                    if "[" not in text:
+                        start, text = start + tag, text + " # " + tg
+                    elif self.p(0.5) and only:
+                        only = only + tag
+                        text = text.replace("]", " # %s]" % tg, 1)
+                    elif inner:
+                        inner, text = inner + tag, text + " # " + tg
                 start_b, only_b = self.body(start), self.body(only)
                 out_b = self.body(clone(start) + clone(inner) + [{"k": "nl"}])
                 lines.append(head + text)
@@ -530,7 +600,7 @@ class Gen:
                     bs.append({"k": "ret", "e": e})
                     bl.append("    ~ return %s" % t)
                 self.temps = saved
-                s, l = [{"k": "if", "br": [{"c": c, "b": self.body(bs)}]}], ["{", "- %s:" % tc] + bl + ["}"]
+                s, l = [{"k": "if", "br": [{"c": c, "b": self.body([{"k": "nl"}] + bs)}]}, {"k": "nl"}], ["{", "- %s:" % tc] + bl + ["}"]
             else:
                 s, l = self.line("")
             stmts += s
@@ -545,6 +615,11 @@ class Gen:
         r = self.r
         for i in range(r.randint(1, 3)):
             self.globals.append({"n": "v%d" % i, "v": I(r.randint(0, 3))})
+        if self.has("typed_vars"):
+            for i in range(r.randint(0, 2)):
+                self.globals.append({"n": "s%d" % i, "v": {"t": "str", "v": chars(r.choice(WORDS))}})
+            for i in range(r.randint(0, 2)):
+                self.globals.append({"n": "b%d" % i, "v": {"t": "bool", "v": self.p(0.5)}})
         names = self.knot_names()
         for n in names:
             self.kinds[n] = "knot"
@@ -557,7 +632,13 @@ class Gen:
                 extra.append(("h%d" % i, "thread"))
         for n, k in extra:
             self.kinds[n] = k
-        src = ["VAR %s = %d" % (g["n"], g["v"]["v"]) for g in self.globals]
+        def lit(v):
+            if v["t"] == "str":
+                return '"%s"' % "".join(chr(c) for c in v["v"])
+            if v["t"] == "bool":
+                return "true" if v["v"] else "false"
+            return str(v["v"])
+        src = ["VAR %s = %s" % (g["n"], lit(g["v"])) for g in self.globals]
         self.cur = ""
         root = self.body([{"k": "div", "t": "k0"}])
         src.append("-> k0")
